@@ -11,6 +11,7 @@
 #include "../lib/vf_run.h"
 #include "../lib/vf_snap.h"
 #include <sys/mman.h>
+#include <math.h>
 
 enum { CT_DOCS, CT_RUNS, CT_TOO_SMALL, CT_FITS, CT_NULLQ, CT_INVALID_INPUTS, CT_INVALID_RUNS, CT_PRINT_RUNS, CT_TEXT_BYTES, CT_EXACT_FIT, CT_MAXNEED, CT_WITH_EMPTY_CONTAINER,
        CT_SIBLING_AFTER_CONTAINER, CT_STATES };
@@ -451,6 +452,33 @@ static void value_family(void)
                 uint64_t bits; memcpy(&bits, &cand[i], 8);
                 snprintf(lab, sizeof lab, "double with bits %016llx", (unsigned long long) bits);
                 vcarrier_begin((k + i) & 1); vf_b_dbits(&VD, bits); vcarrier_end(lab);
+            }
+        }
+    }
+    /* decimal ROUNDING boundaries of %f: 10^k - 5e-7 and its two neighbours (the 6th decimal rounds up into a new digit), ties at
+     * the 6th decimal (odd multiples of 5e-7, full mantissas), values just below an integer */
+    {
+        double p10 = 1.0;
+        for (int k = 0; k <= 15; k++, p10 *= 10.0) {
+            if (!take()) continue;
+            double b = p10 - 0.0000005;
+            double cand[6] = { b, nextafter(b, 0.0), nextafter(b, 1e300), -b, p10 - 0.0000004, p10 - 0.0000006 };
+            for (int i = 0; i < 6; i++) {
+                uint64_t bits; memcpy(&bits, &cand[i], 8);
+                snprintf(lab, sizeof lab, "double with bits %016llx", (unsigned long long) bits);
+                vcarrier_begin((k + i) & 1); vf_b_dbits(&VD, bits); vcarrier_end(lab);
+            }
+        }
+        static const double ties[] = { 0.0000005, 0.0000015, 0.0000025, 0.0000035, 0.0000045, 0.0000145, 0.1234575, 0.1234565, 0.9999995, 0.5000005, 1.0000005, 41.9999999, 2.9999999999999996,
+                                       0.9999999999, 7.9999995, 123456.7890125, 123456.7890135, 4294967294.9999995, 4294967295.5, 0.0000004999999999, 0.00000050000000001, 999.99999949999994,
+                                       9.9999994999999995, 99999.999999499996 };
+        for (size_t i = 0; i < sizeof ties / sizeof ties[0]; i++) {
+            if (!take()) continue;
+            for (int sg = 0; sg < 2; sg++) {
+                double v = sg ? -ties[i] : ties[i];
+                uint64_t bits; memcpy(&bits, &v, 8);
+                snprintf(lab, sizeof lab, "double with bits %016llx", (unsigned long long) bits);
+                vcarrier_begin((int) (i + sg) & 1); vf_b_dbits(&VD, bits); vcarrier_end(lab);
             }
         }
     }
